@@ -222,13 +222,49 @@ pub fn c04(tier: &str, flavor: Flavor) -> Spec {
             jobs.push(job(single(&zcfg, flavor, settled(&ops)), &[0], "c04-zero-charge"));
         }
     }
+    // updates that change the charge of a resident key (up, down, down to nothing), on a cache
+    // that is nearly full: every history whose running total never exceeds the budget keeps all
+    // its keys (budget 10, Coster 0, internal cost ignored)
+    {
+        let ccfg = Cfg { max_cost: 10, coster_base: 0, coster_mod: 0, ignore_internal_cost: true, cleanup_ms: 1000, ..Cfg::default() };
+        let ca = [ins(1, 8, 0), ins(1, 0, 0), ins(1, 2, 0), ins(2, 8, 0), ins(2, 0, 0), ins(3, 2, 0), Op::Pres { k: 1, c: 0 }, Op::Pres { k: 1, c: 8 }, Op::Rem { k: 1 }];
+        for s in sequences(&ca, if quick { 4 } else { 5 }) {
+            let mut charge: BTreeMap<u64, i64> = BTreeMap::new();
+            let mut fits = true;
+            for o in &s {
+                match *o {
+                    Op::Ins { k, c, .. } => {
+                        charge.insert(k, c);
+                    }
+                    Op::Pres { k, c } => {
+                        if let Some(x) = charge.get_mut(&k) {
+                            *x = c;
+                        }
+                    }
+                    Op::Rem { k } => {
+                        charge.remove(&k);
+                    }
+                    _ => {}
+                }
+                if charge.values().sum::<i64>() > 10 {
+                    fits = false;
+                }
+            }
+            if !fits || charge.len() < 2 {
+                continue;
+            }
+            let mut ops = s.clone();
+            ops.extend([Op::Get { k: 1 }, Op::Get { k: 2 }, Op::Get { k: 3 }]);
+            jobs.push(job(single(&ccfg, flavor, settled(&ops)), &[0], "c04-cost-changes"));
+        }
+    }
     Spec {
         id: "C04",
         jobs,
         oracle: o_c04,
         interesting: |_, t| t.ledger.iter().any(|e| e.kind != CbKind::Exit) || t.recs.iter().any(|r| matches!(r.res, Res::Val(Some(_)))),
         rule: format!(
-            "every history of depth {} over {} symbols (I(k,ttl in 0/1s/2.5s), P(k), R(k), M(k), X, A(0.5s), A(1s); keys {:?}) x {} (cleanup interval, clock phase) settings, each followed by 2 s of idle time and a lookup of every key, quiescence after every operation, every scheduling/select choice at preemption bound 0; the same histories once more with zero-charge entries (cost 0, Coster 0) and a final re-insert of every key; exact comparison with a reference map after every operation; non-trivial = a callback fired or a lookup hit",
+            "every history of depth {} over {} symbols (I(k,ttl in 0/1s/2.5s), P(k), R(k), M(k), X, A(0.5s), A(1s); keys {:?}) x {} (cleanup interval, clock phase) settings, each followed by 2 s of idle time and a lookup of every key, quiescence after every operation, every scheduling/select choice at preemption bound 0; the same histories once more with zero-charge entries (cost 0, Coster 0) and a final re-insert of every key; every history of depth 4/5 over {{I(1,8), I(1,0), I(1,2), I(2,8), I(2,0), I(3,2), P(1,0), P(1,8), R(1)}} whose running total stays within a budget of 10 (updates lowering a charge free the room they claim to free); exact comparison with a reference map after every operation; non-trivial = a callback fired or a lookup hit",
             depth,
             alpha.len(),
             keys,
@@ -241,6 +277,12 @@ pub fn c04(tier: &str, flavor: Flavor) -> Spec {
 // ------------------------------------------------------------------------------------------------
 
 fn o_c03(p: &Program, t: &Trace) -> Vec<Finding> {
+    if p.cfg.keymode != KeyMode::Transparent {
+        // keys sharing an index hash: the slot model instead of the per-key map
+        let mut v = o_collide(p, t);
+        v.extend(o_hard_deadline(p, t));
+        return v;
+    }
     let mut v = o_map(p, t);
     v.extend(o_no_ttl_stays(p, t));
     v.extend(o_hard_deadline(p, t));
@@ -487,12 +529,26 @@ pub fn c03(tier: &str, flavor: Flavor) -> Spec {
         ];
         jobs.push(job(single(&cfg, flavor, settled(&ops)), &[0], "c03-max-ttl"));
     }
+    // get_ttl / lookups of a key whose index hash is shared with another key: the deadline reported
+    // is the key's own, never the neighbour's (index = k % 2, conflict = k + 1: keys 2 and 4)
+    {
+        let ccfg = Cfg { keymode: KeyMode::Collide { m: 2 }, ..Cfg::default() };
+        let ca = [ins(2, 1, 1000), ins(4, 1, 0), ins(4, 1, 1500), Op::Ttl { k: 2 }, Op::Ttl { k: 4 }, Op::Adv { ms: 700 }, Op::Adv { ms: 2000 }];
+        for s in sequences(&ca, if quick { 4 } else { 5 }) {
+            if !s.iter().any(|o| matches!(o, Op::Ins { .. })) || !s.iter().any(|o| matches!(o, Op::Ttl { .. })) {
+                continue;
+            }
+            let mut ops = s.clone();
+            ops.extend([Op::Ttl { k: 2 }, Op::Ttl { k: 4 }, Op::Get { k: 2 }, Op::Get { k: 4 }]);
+            jobs.push(job(single(&ccfg, flavor, settled(&ops)), &[0], "c03-colliding"));
+        }
+    }
     Spec {
         id: "C03",
         jobs,
         oracle: o_c03,
         interesting: |_, t| has_expiry(t) || t.recs.iter().any(|r| matches!(r.res, Res::Ttl(Some(x)) if x != u128::MAX)),
-        rule: "scripted time lines: TTL in {0.3,1,1.5,2.5 s,1 h} x clock phase {0,0.35,0.95 s} x cleanup interval {0.5,2 s} x neighbour key sharing the expiry second {absent,inserted,updated,removed} x optional re-insert (at 0.25..2 s, with TTL none/0.5 s/2 s, directly or after a remove of the key, and once more with a validator that refuses the re-insert: the first deadline stays); get + get_ttl + ValueRef::ttl probed every 250 ms and at deadline-1ns / deadline / deadline+1ns until deadline + 3 s, quiescence after every step, all select/scheduling choices at bound 0; exact comparison with reference deadlines; plus the tick-race family (two TTL residents, the clock jumps past their deadlines, the client re-inserts / removes without waiting for quiescence, bound 2): an entry re-inserted without TTL stays visible; plus sub-millisecond TTLs (1 ns, 0.5 ms, 999999 ns, 1000001 ns; fresh key and as the new deadline of a resident key without TTL) probed at deadline-1ns / deadline / later, and a TTL of Duration::MAX (fresh, repeated, replacing no TTL, replaced by 0.5 s)".into(),
+        rule: "scripted time lines: TTL in {0.3,1,1.5,2.5 s,1 h} x clock phase {0,0.35,0.95 s} x cleanup interval {0.5,2 s} x neighbour key sharing the expiry second {absent,inserted,updated,removed} x optional re-insert (at 0.25..2 s, with TTL none/0.5 s/2 s, directly or after a remove of the key, and once more with a validator that refuses the re-insert: the first deadline stays); get + get_ttl + ValueRef::ttl probed every 250 ms and at deadline-1ns / deadline / deadline+1ns until deadline + 3 s, quiescence after every step, all select/scheduling choices at bound 0; exact comparison with reference deadlines; plus the tick-race family (two TTL residents, the clock jumps past their deadlines, the client re-inserts / removes without waiting for quiescence, bound 2): an entry re-inserted without TTL stays visible; plus sub-millisecond TTLs (1 ns, 0.5 ms, 999999 ns, 1000001 ns; fresh key and as the new deadline of a resident key without TTL) probed at deadline-1ns / deadline / later, settled histories of depth 4/5 over {I(2,1s), I(4), I(4,1.5s), T(2), T(4), A(0.7s), A(2s)} on two keys sharing an index hash (slot model), and a TTL of Duration::MAX (fresh, repeated, replacing no TTL, replaced by 0.5 s)".into(),
         assumptions: COMMON_ASSUMPTIONS.iter().map(|s| s.to_string()).collect(),
     }
 }
@@ -601,6 +657,22 @@ pub fn c05(tier: &str, flavor: Flavor) -> Spec {
             jobs.push(job(single(&ocfg, flavor, settled(&ops)), &[0], "c05-odd-charges"));
         }
     }
+    // dead on arrival: the TTL runs out between the insert call and the moment the processor applies
+    // the buffered item (time passes before the processor is served, or the TTL is a nanosecond):
+    // the entry is stored, charged and listed all the same, so the sweep collects it
+    for cleanup_ms in [500u64, 1000, 2000] {
+        for first in [vec![ins(1, 1, 300), Op::Adv { ms: 500 }], vec![ins(1, 1, 300), ins(2, 1, 1200), Op::Adv { ms: 1500 }], vec![ins_ns(1, 1, 1), Op::AdvNs { ns: 1 }], vec![ins_ns(1, 1, 1), ins_ns(2, 1, 999_999), Op::Adv { ms: 1 }], vec![ins(2, 1, 0), ins(2, 1, 300), ins(1, 1, 300), Op::Adv { ms: 400 }]] {
+            let cfg = Cfg { cleanup_ms, ..Cfg::default() };
+            let mut ops = first.clone();
+            ops.push(Op::Settle);
+            for _ in 0..5 {
+                ops.push(Op::Adv { ms: 1000 });
+                ops.push(Op::Settle);
+            }
+            ops.extend([ins(1, 1, 0), Op::Settle, Op::Get { k: 1 }, Op::Settle]);
+            jobs.push(job(single(&cfg, flavor, ops), &[1], "c05-dead-on-arrival"));
+        }
+    }
     jobs.extend(tick_race_jobs(flavor, quick, "c05-tick-race"));
     // a lookup guard (on the expired entry itself or on a neighbour in the same shard) held while
     // the sweep for that entry is due: the sweep waits for the guard, the entry is reclaimed
@@ -644,7 +716,7 @@ pub fn c05(tier: &str, flavor: Flavor) -> Spec {
         oracle: o_c05,
         interesting: |_, t| has_expiry(t),
         rule: format!(
-            "every history of depth {} over {} symbols (I(k,ttl) k in 1..2, R(k), I(1,no ttl), A(0.25s), A(1s)) containing a TTL insert, x {} (cleanup interval incl. the 2 s default, clock phase) settings, followed by 7 x 1 s of idle time; quiescence after every step (the processor is never starved), all choices at bound 0; oracle: physically reclaimed, un-charged and handed to on_evict exactly once with the charged cost by deadline + 1 s + interval; never evicted before the deadline; plus the odd-charges family (costs -5 / -1 / 0 with a Coster answering 0 or -3, depth 3, both keys re-inserted afterwards) and the families named in DESIGN 11.5; non-trivial = an expiry was reclaimed",
+            "every history of depth {} over {} symbols (I(k,ttl) k in 1..2, R(k), I(1,no ttl), A(0.25s), A(1s)) containing a TTL insert, x {} (cleanup interval incl. the 2 s default, clock phase) settings, followed by 7 x 1 s of idle time; quiescence after every step (the processor is never starved), all choices at bound 0; oracle: physically reclaimed, un-charged and handed to on_evict exactly once with the charged cost by deadline + 1 s + interval; never evicted before the deadline; plus entries whose TTL runs out before the processor applies the buffered insert (dead on arrival: 0.3 s TTL with 0.4-1.5 s of lag, 1 ns / 999999 ns TTLs), plus the odd-charges family (costs -5 / -1 / 0 with a Coster answering 0 or -3, depth 3, both keys re-inserted afterwards) and the families named in DESIGN 11.5; non-trivial = an expiry was reclaimed",
             depth,
             alpha.len(),
             configs.len()
@@ -756,13 +828,31 @@ pub fn c09(tier: &str, flavor: Flavor) -> Spec {
     for validator in [ValidatorMode::Never, ValidatorMode::Newer, ValidatorMode::Always] {
         jobs.extend(dead_entry_jobs(flavor, if quick { 2 } else { 3 }, validator, true, "c09-dead-entry"));
     }
+    // insert_if_present of a key that is absent while another key with the same index hash is
+    // resident - alive, or dead and not yet swept (index = k % 2, conflict = k + 1: keys 2 and 4)
+    for validator in [ValidatorMode::Always, ValidatorMode::Never] {
+        for cleanup_ms in [3_600_000u64, 1000] {
+            let ccfg = Cfg { keymode: KeyMode::Collide { m: 2 }, cleanup_ms, validator, ..Cfg::default() };
+            let ca = [Op::Pres { k: 4, c: 1 }, Op::Pres { k: 2, c: 1 }, Op::Get { k: 4 }, Op::Mut { k: 4 }, Op::Rem { k: 4 }, Op::Adv { ms: 500 }, ins(2, 1, 0)];
+            for body in bodies(&ca, if quick { 3 } else { 4 }) {
+                if !body.contains(&Op::Pres { k: 4, c: 1 }) {
+                    continue;
+                }
+                let mut ops = body.clone();
+                ops.extend([Op::Get { k: 4 }, Op::Get { k: 2 }, Op::Adv { ms: 1000 }, Op::Adv { ms: 1000 }, Op::Pres { k: 4, c: 1 }, Op::Get { k: 4 }]);
+                let mut pr = single(&ccfg, flavor, settled(&ops));
+                pr.setup = vec![ins(2, 1, 300)];
+                jobs.push(job(pr, &[0], "c09-colliding-absent"));
+            }
+        }
+    }
     Spec {
         id: "C09",
         jobs,
         oracle: o_c09_all,
         interesting: |_, t| t.validator_calls.iter().any(|c| !c.2) || t.recs.iter().any(|r| matches!(r.op, Op::Pres { .. }) && r.res == Res::Bool(true)),
         rule: format!(
-            "validators {{always, never, newer-only}} x every history of depth {} over 13 symbols (I(k), I(k,2s), P(k), R(k), G(k), T(k) for k in 1..2, A(1s)), quiescence after every step, bound 0, exact reference map + snapshot identity across vetoes; plus every unsettled history over {{I(1),P(1),R(1),S}} (insert_if_present racing buffered work for the same key) and over {{I(1),I(2),P(1),G(1),S}} on a cache of capacity 1 (buffered work evicts the key before the queued item is handled) at preemption bound 1: a vetoed or refused write never becomes visible or resident; plus the dead-entry family (key 1 resident with a TTL that has run out, the sweep an hour or a second away; every body of <= 2/3 operations over G/M/T/I/I(ttl)/P/R on it, three validators, quiescence after every step); non-trivial = a veto happened or insert_if_present updated",
+            "validators {{always, never, newer-only}} x every history of depth {} over 13 symbols (I(k), I(k,2s), P(k), R(k), G(k), T(k) for k in 1..2, A(1s)), quiescence after every step, bound 0, exact reference map + snapshot identity across vetoes; plus every unsettled history over {{I(1),P(1),R(1),S}} (insert_if_present racing buffered work for the same key) and over {{I(1),I(2),P(1),G(1),S}} on a cache of capacity 1 (buffered work evicts the key before the queued item is handled) at preemption bound 1: a vetoed or refused write never becomes visible or resident; plus the dead-entry family (key 1 resident with a TTL that has run out, the sweep an hour or a second away; every body of <= 2/3 operations over G/M/T/I/I(ttl)/P/R on it, three validators, quiescence after every step), and insert_if_present of an absent key whose index hash is shared with a resident key that is alive or dead-and-unswept (a key no plain insert names is never served, never resident); non-trivial = a veto happened or insert_if_present updated",
             depth
         ),
         assumptions: COMMON_ASSUMPTIONS.iter().map(|s| s.to_string()).collect(),
@@ -850,8 +940,46 @@ fn o_present_validated(_p: &Program, t: &Trace) -> Vec<Finding> {
     out
 }
 
+/// insert_if_present never creates an entry: a key that no plain insert of the program ever names
+/// is never served and never resident, and every insert_if_present of it answers false - whatever
+/// else lives in (or lingers in) the slot of its index hash.
+fn o_present_never_creates(p: &Program, t: &Trace) -> Vec<Finding> {
+    let mut out = Vec::new();
+    let inserted: std::collections::HashSet<u64> = p.setup.iter().chain(p.threads.iter().flatten()).chain(p.post.iter()).filter_map(|o| if let Op::Ins { k, .. } = o { Some(*k) } else { None }).collect();
+    for r in &t.recs {
+        let k = match r.op.key() {
+            Some(k) if !inserted.contains(&k) => k,
+            _ => continue,
+        };
+        let bad = match (&r.op, &r.res) {
+            (Op::Pres { .. }, Res::Bool(true)) => true,
+            (_, Res::Val(Some(_))) | (_, Res::Ttl(Some(_))) => true,
+            _ => false,
+        };
+        if bad {
+            out.push(("present-created-entry".to_string(), format!("key {} is never inserted by a plain insert, yet {} returned {:?}", k, r.op.short(), r.res)));
+            return out;
+        }
+    }
+    for s in &t.snaps {
+        if let Some(e) = s.entries.iter().find(|e| !inserted.contains(&e.value.key)) {
+            out.push(("present-created-entry".to_string(), format!("key {} is never inserted by a plain insert, yet {:?} is resident", e.value.key, e.value)));
+            return out;
+        }
+    }
+    out
+}
+
 fn o_c09_all(p: &Program, t: &Trace) -> Vec<Finding> {
     let mut v = o_present_validated(p, t);
+    v.extend(o_present_never_creates(p, t));
+    if p.cfg.keymode != KeyMode::Transparent {
+        // (the slot model knows no vetoes)
+        if p.cfg.validator == ValidatorMode::Always {
+            v.extend(o_collide(p, t));
+        }
+        return v;
+    }
     if p.threads.len() > 1 {
         v.extend(o_newer_monotone(p, t));
         return v;
@@ -915,13 +1043,27 @@ pub fn c16(tier: &str, flavor: Flavor) -> Spec {
             }
         }
     }
+    // entries with a TTL whose charge is zero or negative (cost -5, -1000 with the overhead
+    // counted, cost 0 priced 0): what the sweep tells on_evict is that charge
+    for ignore in [true, false] {
+        let cfg = Cfg { coster_base: 0, coster_mod: 0, ignore_internal_cost: ignore, max_cost: 100_000, ..Cfg::default() };
+        let oa = [ins(1, -5, 1000), ins(2, -1000, 1000), ins(3, 0, 1000), ins(1, 7, 0), ins(2, 7, 500), Op::Adv { ms: 2500 }];
+        for s in sequences(&oa, if quick { 3 } else { 4 }) {
+            if !s.contains(&Op::Adv { ms: 2500 }) {
+                continue;
+            }
+            let mut ops = s.clone();
+            ops.push(Op::Adv { ms: 2500 });
+            jobs.push(job(single(&cfg, flavor, settled(&ops)), &[0], "c16-expiring-odd-charges"));
+        }
+    }
     Spec {
         id: "C16",
         jobs,
         oracle: o_c16,
         interesting: |_, t| t.snaps.iter().any(|s| !s.policy.key_costs.is_empty()),
         rule: format!(
-            "coster {{const 0, const 3, 7 + seq%5}} x ignore_internal_cost {{true,false}} x max_cost {{ample, tight}} x every history of depth {} over {} symbols (I(1,c), P(1,c) for c in 0/1/5/1000, I(2,1), I(2,0)), quiescence after every write; plus histories over {{I(1,6), I(2,3), I(3,9), I(3,4), I(1,2), I(2,0), I(3,11), I(4,500) (oversize), I(2,5,1s), A(2.5s) (expiry)}} on a cache of capacity 10 (evictions and rejections among entries of different costs); oracle: charge == (c != 0 ? c : coster(v)) + (ignore ? 0 : size_of StoreItem) after every step, callback cost == charged cost; non-trivial = something is charged",
+            "coster {{const 0, const 3, 7 + seq%5}} x ignore_internal_cost {{true,false}} x max_cost {{ample, tight}} x every history of depth {} over {} symbols (I(1,c), P(1,c) for c in 0/1/5/1000, I(2,1), I(2,0)), quiescence after every write; plus histories over {{I(1,6), I(2,3), I(3,9), I(3,4), I(1,2), I(2,0), I(3,11), I(4,500) (oversize), I(2,5,1s), A(2.5s) (expiry)}} on a cache of capacity 10 (evictions and rejections among entries of different costs); plus TTL entries charged zero or less (costs -5, -1000, 0 with a Coster answering 0) reclaimed by the sweep; oracle: charge == (c != 0 ? c : coster(v)) + (ignore ? 0 : size_of StoreItem) after every step, callback cost == charged cost; non-trivial = something is charged",
             depth,
             alpha.len()
         ),
@@ -1481,13 +1623,15 @@ pub fn c02(tier: &str, flavor: Flavor) -> Spec {
             jobs.push(job(single(&ccfg, flavor, settled(&ops)), &[0], "c02-colliding-expiring"));
         }
     }
+    // clear() while the residents are charged nothing in total: afterwards nothing is served
+    jobs.extend(uncharged_clear_jobs(flavor, quick, false, "c02-uncharged-clear"));
     Spec {
         id: "C02",
         jobs,
         oracle: o_c02,
         interesting: |_, t| t.recs.iter().any(|r| matches!(r.res, Res::Val(Some(_)))),
         rule: format!(
-            "keys 1 and 257 (same shard). E-seq: every history of depth {} over 13 symbols (I(k), I(k,1s), M(k), R(k), G(k), X, A(1s), S) containing a lookup, at max_cost 100 and 1 (forced evictions); every fully settled history of depth {} with exact-map comparison; E-conc: two writer threads x bodies of <= {} operations from {{I(1), I(257), M(1), R(1), X}} + a reader doing two lookups, 2 pre-states, preemption bound {}; 4 named programs at bound 2; settled histories on two keys forced onto one index hash with TTLs and idle time (expired, unswept owner); two writers of one resident key under a 'newer wins' validator at bound 2 (the value never moves back); oracle on the recorded call/return history (value provenance, staleness after remove/clear + quiescence, no roll-back of in-place writes); non-trivial = a lookup returned a value",
+            "keys 1 and 257 (same shard). E-seq: every history of depth {} over 13 symbols (I(k), I(k,1s), M(k), R(k), G(k), X, A(1s), S) containing a lookup, at max_cost 100 and 1 (forced evictions); every fully settled history of depth {} with exact-map comparison; E-conc: two writer threads x bodies of <= {} operations from {{I(1), I(257), M(1), R(1), X}} + a reader doing two lookups, 2 pre-states, preemption bound {}; 4 named programs at bound 2; settled histories on two keys forced onto one index hash with TTLs and idle time (expired, unswept owner); two writers of one resident key under a 'newer wins' validator at bound 2 (the value never moves back); clear() on residents charged nothing in total (cost 0 / +3 and -3, internal cost ignored), settled and unsettled; oracle on the recorded call/return history (value provenance, staleness after remove/clear + quiescence, no roll-back of in-place writes); non-trivial = a lookup returned a value",
             if quick { 4 } else { 5 },
             if quick { 3 } else { 4 },
             if quick { 1 } else { 2 },
@@ -1596,6 +1740,23 @@ pub fn c10(tier: &str, flavor: Flavor) -> Spec {
             jobs.push(job(conc(&cfg, flavor, &[], vec![a]), &[2], "c10-ttl"));
         }
     }
+    // the client's own clear() with work still buffered, then an insert / remove and the barrier:
+    // what is issued after clear() has returned is no longer the clear's to discard
+    for pre in bodies(&[ins(1, 1, 0), ins(2, 1, 0), Op::Rem { k: 1 }], 2) {
+        for tail in [vec![ins(3, 1, 0)], vec![ins(1, 1, 0)], vec![ins(3, 1, 0), Op::Rem { k: 3 }], vec![Op::Rem { k: 2 }, ins(3, 1, 0)]] {
+            for buf in [2usize, 8] {
+                if quick && buf == 2 {
+                    continue;
+                }
+                let cfg = Cfg { buffer_size: buf, ..Cfg::default() };
+                let mut a = pre.clone();
+                a.push(Op::Clear);
+                a.extend(tail.iter().copied());
+                a.extend([Op::Wait, Op::Get { k: 1 }, Op::Get { k: 2 }, Op::Get { k: 3 }, Op::Snap]);
+                jobs.push(job(conc(&cfg, flavor, &[], vec![a]), if quick { &[1] } else { &[2] }, "c10-own-clear"));
+            }
+        }
+    }
     // waits with nothing pending, racing close/clear directly
     for threads in [
         vec![vec![Op::Wait], vec![Op::Close]],
@@ -1624,7 +1785,7 @@ pub fn c10(tier: &str, flavor: Flavor) -> Spec {
         oracle: o_c10,
         interesting: |_, t| t.recs.iter().any(|r| r.op == Op::Wait && r.res == Res::Unit),
         rule: format!(
-            "client A: every history of <= {} operations over {{I(1), I(2), R(1), R(2), P(1), W}}, then wait(), then (without settling) G(1), G(2) and a facade snapshot; other clients: none | another waiter | clear | close | clear;close | close + a second waiter | two more waiters; insert buffer sizes 1, 2, 8; all schedules up to preemption bound {} and all select choices. Barrier oracle: after an Ok wait A's inserts are retrievable and charged, its removes are gone (a concurrent clear may discard inserts); termination: a wait() that never returns is a blocked-forever task = deadlock report; non-trivial = some wait() returned Ok",
+            "client A: every history of <= {} operations over {{I(1), I(2), R(1), R(2), P(1), W}}, then wait(), then (without settling) G(1), G(2) and a facade snapshot; other clients: none | another waiter | clear | close | clear;close | close + a second waiter | two more waiters; insert buffer sizes 1, 2, 8; all schedules up to preemption bound {} and all select choices. Barrier oracle: after an Ok wait A's inserts are retrievable and charged, its removes are gone (a concurrent clear may discard inserts); termination: a wait() that never returns is a blocked-forever task = deadlock report; plus the families c10-same-key, c10-shard-held, c10-ttl (TTL of Duration::MAX; a key re-inserted after its TTL ran out, before the sweep) and c10-own-clear (the client's own clear() with work buffered, then insert / remove and the barrier); non-trivial = some wait() returned Ok",
             if quick { 2 } else { 3 },
             if quick { 2 } else { 3 }
         ),
@@ -1683,6 +1844,10 @@ fn o_c11(p: &Program, t: &Trace) -> Vec<Finding> {
     }
     if p.cfg.metrics && !huge {
         v.extend(o_metrics(p, t));
+    }
+    if p.cfg.num_counters >= 1000 && p.cfg.buffer_items == 1 && p.threads.len() == 1 {
+        // "behaves like a fresh one": no popularity survives the clear
+        v.extend(o_c13_cache(p, t));
     }
     v
 }
@@ -1767,13 +1932,30 @@ pub fn c11(tier: &str, flavor: Flavor) -> Spec {
     }
     // every metrics stripe restarts from zero
     jobs.extend(stripe_jobs(flavor, "c11-stripes"));
+    // residents charged nothing in total at the moment of the clear
+    jobs.extend(uncharged_clear_jobs(flavor, quick, true, "c11-uncharged-clear"));
+    // the popularity of keys looked up before the clear (hits and misses; key hashes 1, 2^63 and
+    // u64::MAX, whose doorkeeper positions are the last ones of the filter) does not survive it
+    {
+        let ecfg = Cfg { num_counters: 1000, buffer_items: 1, ..Cfg::default() };
+        let big = u64::MAX;
+        let ea = [Op::Get { k: 1 }, Op::Get { k: big }, Op::Get { k: 1 << 63 }, ins(big, 1, 0), Op::Rem { k: big }, Op::Clear];
+        for s in sequences(&ea, if quick { 4 } else { 5 }) {
+            if !s.iter().any(is_lookup_op) {
+                continue;
+            }
+            let mut ops = s.clone();
+            ops.extend([Op::Clear, Op::Settle, Op::Get { k: big }, Op::Get { k: 1 }]);
+            jobs.push(job(single(&ecfg, flavor, settled(&ops)), &[0], "c11-estimator"));
+        }
+    }
     Spec {
         id: "C11",
         jobs,
         oracle: o_c11,
         interesting: |_, t| t.recs.iter().any(|r| r.op == Op::Clear && r.res == Res::Unit) && t.recs.iter().any(|r| ok_write(r)),
         rule: format!(
-            "E-seq: [every prefix of <= {} operations over {{I(k,none/1s/3s), R(k), G(k)}} k in 1..2] X [5 suffixes re-using the keys with another TTL / none, idling 3.5 s, looking again], not settled around X, preemption bound {}, with and without metrics; the same prefixes with settled suffixes under the exact-map oracle; E-conc: client A bodies of <= 2 operations from {{I(1), I(2,1s), R(1), G(1)}} against B in {{X, X;I(1,1s), X;G(1)}} x 2 pre-states at bound 2; TTL updates of resident keys racing the clear, followed (after the join) by remove, re-insert without TTL, 3 s of idle time and lookups; one settled history through a clear per metrics stripe (keys 25..49); oracle: nothing inserted before the clear() call is resident/retrievable after it returned + quiescence, len/used/metrics zero unless something was inserted afterwards, fresh-cache behaviour for re-used keys; non-trivial = a successful write and a clear happened",
+            "E-seq: [every prefix of <= {} operations over {{I(k,none/1s/3s), R(k), G(k)}} k in 1..2] X [5 suffixes re-using the keys with another TTL / none, idling 3.5 s, looking again], not settled around X, preemption bound {}, with and without metrics; the same prefixes with settled suffixes under the exact-map oracle; E-conc: client A bodies of <= 2 operations from {{I(1), I(2,1s), R(1), G(1)}} against B in {{X, X;I(1,1s), X;G(1)}} x 2 pre-states at bound 2; TTL updates of resident keys racing the clear, followed (after the join) by remove, re-insert without TTL, 3 s of idle time and lookups; one settled history through a clear per metrics stripe (keys 25..49); clear() on residents charged nothing in total; lookups of key hashes 1, 2^63, u64::MAX before the clear leave no popularity behind (estimates read at every quiescent point after it); oracle: nothing inserted before the clear() call is resident/retrievable after it returned + quiescence, len/used/metrics zero unless something was inserted afterwards, fresh-cache behaviour for re-used keys; non-trivial = a successful write and a clear happened",
             if quick { 2 } else { 3 },
             if quick { 1 } else { 2 }
         ),
@@ -1930,6 +2112,20 @@ pub fn c17(tier: &str, flavor: Flavor) -> Spec {
             jobs.push(job(single(&zcfg, flavor, settled(&ops)), &[0], "c17-zero-charge"));
         }
     }
+    // ... and so are entries charged less than nothing: the cost counters are modular, their
+    // difference is the charged total
+    {
+        let ncfg = Cfg { metrics: true, max_cost: 100, coster_base: 0, coster_mod: 0, ignore_internal_cost: true, ..Cfg::default() };
+        let neg = |o: &Op| match *o {
+            Op::Ins { k, ttl_ms, c } => Op::Ins { k, c: if k == 1 { -3 } else { c + 1 }, ttl_ms },
+            Op::Pres { k, .. } => Op::Pres { k, c: -1 },
+            x => x,
+        };
+        for s in sequences(&alpha, if quick { 3 } else { 4 }) {
+            let ops: Vec<Op> = s.iter().map(neg).collect();
+            jobs.push(job(single(&ncfg, flavor, settled(&ops)), &[0], "c17-negative-charge"));
+        }
+    }
     // tiny insert buffer, processor not scheduled between the inserts: sets_dropped
     for buf in [1usize, 2] {
         let cfg = Cfg { metrics: true, max_cost: 100, buffer_size: buf, ..Cfg::default() };
@@ -1973,7 +2169,7 @@ pub fn c17(tier: &str, flavor: Flavor) -> Spec {
         oracle: o_c17,
         interesting: |_, t| t.snaps.last().and_then(|s| s.metrics.as_ref()).map(|m| m.keys_added > 0 || m.hits > 0).unwrap_or(false),
         rule: format!(
-            "metrics on. E-seq: every settled history of depth {} over 13 symbols (I(k), I(1,2), I(2,1s), P(1), R(1), G(1), G(3), M(2), A(1.5s), X, U(1)) at max_cost 2 and 100, and once more with zero-charge entries, conservation laws evaluated at EVERY quiescent point; unsettled histories over {{I(1), I(2), I(3), I(1), G(1), S}} with insert buffer 1 and 2 (forces sets_dropped); E-conc: two clients x bodies of <= {} operations from {{G(1), M(1), I(1), I(3), R(1)}} x 2 pre-states with the metric stripes as scheduling points, preemption bound 2; the same bodies against a client doing X / X;I(3) / I(3);X at bound 2; two clearing clients (lookups before / after their clears) at bound 1; one settled history (hit, miss, update, TTL expiry, remove, clear, fresh start) per metrics stripe (keys 25..49); non-trivial = keys_added > 0 or hits > 0",
+            "metrics on. E-seq: every settled history of depth {} over 13 symbols (I(k), I(1,2), I(2,1s), P(1), R(1), G(1), G(3), M(2), A(1.5s), X, U(1)) at max_cost 2 and 100, once more with zero-charge entries and once more with entries charged -3 / -1, conservation laws evaluated at EVERY quiescent point; unsettled histories over {{I(1), I(2), I(3), I(1), G(1), S}} with insert buffer 1 and 2 (forces sets_dropped); E-conc: two clients x bodies of <= {} operations from {{G(1), M(1), I(1), I(3), R(1)}} x 2 pre-states with the metric stripes as scheduling points, preemption bound 2; the same bodies against a client doing X / X;I(3) / I(3);X at bound 2; two clearing clients (lookups before / after their clears) at bound 1; one settled history (hit, miss, update, TTL expiry, remove, clear, fresh start) per metrics stripe (keys 25..49); non-trivial = keys_added > 0 or hits > 0",
             if quick { 3 } else { 4 },
             if quick { 1 } else { 2 }
         ),
@@ -2078,14 +2274,14 @@ fn o_c13_cache(p: &Program, t: &Trace) -> Vec<Finding> {
 pub fn c13_cache(tier: &str, flavor: Flavor) -> Spec {
     let quick = tier == "quick";
     let cfg = Cfg { num_counters: 1000, buffer_items: 1, max_cost: 100, ..Cfg::default() };
-    let alpha = [Op::Get { k: 1 }, Op::Get { k: 2 }, Op::Mut { k: 1 }, ins(1, 1, 0), ins(1, 1, 500), Op::Rem { k: 1 }, Op::Clear, Op::Adv { ms: 2500 }];
+    let alpha = [Op::Get { k: 1 }, Op::Get { k: u64::MAX }, Op::Mut { k: 1 }, ins(1, 1, 0), ins(1, 1, 500), Op::Rem { k: 1 }, Op::Clear, Op::Adv { ms: 2500 }];
     let mut jobs = Vec::new();
     for s in sequences(&alpha, if quick { 4 } else { 5 }) {
         if !s.iter().any(|o| is_lookup_op(o)) {
             continue;
         }
         let mut ops = s.clone();
-        ops.extend([Op::Clear, Op::Settle, Op::Get { k: 1 }, Op::Get { k: 3 }, Op::Get { k: 1 }]);
+        ops.extend([Op::Clear, Op::Settle, Op::Get { k: 1 }, Op::Get { k: 3 }, Op::Get { k: u64::MAX }, Op::Get { k: 1 }]);
         jobs.push(job(single(&cfg, flavor, settled(&ops)), &[0], "c13-cache-clear"));
     }
     Spec {
@@ -2093,7 +2289,7 @@ pub fn c13_cache(tier: &str, flavor: Flavor) -> Spec {
         jobs,
         oracle: o_c13_cache,
         interesting: |_, t| t.snaps.iter().any(|s| s.estimates.iter().any(|e| e.1 > 0)),
-        rule: format!("cache level (1000 counters, buffer_items 1: every lookup reaches the estimator): every settled history of depth {} over {{G(1), G(2), M(1), I(1), I(1,0.5s), R(1), X, A(2.5s)}} containing a lookup, then clear() - on a cache that holds entries, holds none because they were removed / expired, or never held any - and three more lookups; at every quiescent point after a clear() no key estimates more than the lookups issued for it since; non-trivial = some estimate was positive", if quick { 4 } else { 5 }),
+        rule: format!("cache level (1000 counters, buffer_items 1: every lookup reaches the estimator): every settled history of depth {} over {{G(1), G(u64::MAX), M(1), I(1), I(1,0.5s), R(1), X, A(2.5s)}} containing a lookup, then clear() - on a cache that holds entries, holds none because they were removed / expired, or never held any - and three more lookups; at every quiescent point after a clear() no key estimates more than the lookups issued for it since; non-trivial = some estimate was positive", if quick { 4 } else { 5 }),
         assumptions: all_std(),
     }
 }
@@ -2165,6 +2361,28 @@ fn dead_entry_jobs(flavor: Flavor, len: usize, validator: ValidatorMode, all_set
             pr.setup = vec![ins(1, 1, 300), ins(2, 1, 0)];
             jobs.push(job(pr, if all_settled { &[0] } else { &[1] }, tag));
         }
+    }
+    jobs
+}
+
+/// clear() on a cache whose residents are charged nothing in total (cost 0 priced 0 by the Coster
+/// with the internal cost ignored, or costs that cancel out: +3 and -3): the wipe does not depend
+/// on what the policy has charged.  Settled histories of depth 3/4 (exact map) and unsettled ones of
+/// depth 3 at bound 1.
+fn uncharged_clear_jobs(flavor: Flavor, quick: bool, metrics: bool, tag: &str) -> Vec<Job> {
+    let cfg = Cfg { coster_base: 0, ignore_internal_cost: true, max_cost: 100, metrics, buffer_items: 1, ..Cfg::default() };
+    let alpha = [ins(1, 0, 0), ins(257, 0, 0), ins(1, 3, 0), ins(2, -3, 0), Op::Pres { k: 1, c: 0 }, Op::Mut { k: 1 }, Op::Clear, Op::Get { k: 1 }];
+    let mut jobs = Vec::new();
+    for s in sequences(&alpha, if quick { 3 } else { 4 }) {
+        if !s.contains(&Op::Clear) || !s.iter().any(|o| matches!(o, Op::Ins { .. })) {
+            continue;
+        }
+        let mut ops = s.clone();
+        ops.extend([Op::Get { k: 1 }, Op::Get { k: 257 }, Op::Get { k: 2 }, Op::Clear, Op::Get { k: 1 }]);
+        jobs.push(job(single(&cfg, flavor, settled(&ops)), &[0], tag));
+        let mut ops = s.clone();
+        ops.extend([Op::Get { k: 1 }, Op::Get { k: 257 }, Op::Get { k: 2 }, Op::Settle]);
+        jobs.push(job(single(&cfg, flavor, ops), &[1], tag));
     }
     jobs
 }
@@ -2452,7 +2670,13 @@ pub fn c20(tier: &str, flavor: Flavor) -> Spec {
         }
     }
     // "any positive cleanup interval": intervals below one millisecond down to 1 ns
+    // (sync flavour only: async-io's interval fires once per period without skipping, so a jump of
+    // the virtual clock by seconds owes a nanosecond interval billions of ticks - a spin, in virtual
+    // as in real time, which the step cap of the explorer cuts off)
     for cleanup_ns in [1u64, 1_000, 200_000, 999_999] {
+        if flavor == Flavor::Async {
+            continue;
+        }
         for &nc in &[1usize, 64] {
             for max_cost in [1i64, 100] {
                 for buffer_size in [1usize, 8] {
